@@ -13,8 +13,15 @@ Where the dialer's own after_handshake hook rejects, how far the accepting side 
 (`ServerLost`); where own-id / empty-protocol and a rejecting before_connect hook coincide, the model allows either
 error (the property does not order them).
 
+Establishment paths are a scenario dimension: the dialer either awaits its `Connecting` or uses
+`Connecting::into_0rtt` + `handshake_completed()` (after a ticket-priming connection); the accepting side is the Router,
+or an own accept loop that awaits the `Accepting`, or one that uses `Accepting::into_0rtt` + `handshake_completed()`.
+The rule of the model is the same on every path, so the expectation for the extra dimension comes out of TLC as is
+(added after seeded/_incoming/C42/patch.diff, which left the hooks out of both 0-RTT paths and was not caught).
+
 Quick: all dialer hook lists (<= 2 hooks, 4 patterns each) x all acceptor hook lists; own id / empty protocol name (also
-with an additional protocol) x all dialer hook lists; hooks behind a filter retry / reject.  Thorough: full product
+with an additional protocol) x all dialer hook lists; hooks behind a filter retry / reject; 2 dialer paths x 3 acceptor paths x {no hook, accept, reject} on either side.
+Thorough: the path dimension x all hook list pairs x 6 registration/offer patterns (5 292 scenarios),: full product
 model-checked, seeded sample run e2e.
 
 Mutation self-tests (2026-09-22), run in the private mirror described in checks/c40.py:
@@ -72,6 +79,7 @@ def check_table(ctx, table, tag, selftest):
         if bad:
             clause, got, allowed = bad
             ctx.report({"clause": clause, "got": str(got)[:80], "self": s["self"], "empty_alpn": s["offers"][0] == "",
+                    "dialer_path": s.get("cpath", "await"), "acceptor_path": s.get("spath", "router"),
                         "expected_results": ",".join(sorted({x["result"] for x in outs}))},
                        "scenario %s: %s observed %s; the specification allows %s"
                        % (rc.short(s), clause, json.dumps(got), "; ".join(allowed)[:400]),
@@ -98,6 +106,7 @@ def run(ctx):
     table = rc.tlc_outcomes(ctx, "MC_Router_C42Quick.cfg")
     check_table(ctx, table, "c42", selftest)
     if not ctx.quick:
+        check_table(ctx, rc.tlc_outcomes(ctx, "MC_Router_C42Paths.cfg", require=None), "c42-paths", selftest)
         ctx.tlc("router", "MC_Router", cfg="MC_Router_Small.cfg", timeout=3000, heap="8g", require_actions=rc.ALL_ACTIONS)
         p = ctx.write_ndjson("c42-sample-scn.json", rc.sample_full(ctx.seed + 1000, 1500))
         table2 = rc.tlc_outcomes(ctx, "MC_Router_Json.cfg", env={"SCN": p})
